@@ -62,6 +62,9 @@ func loadC19Progs(baseSeed uint64, nGen int) []*c19Prog {
 	out = append(out, &c19Prog{Name: "grid_flat", Header: []string{"\tORG\t0x7c00"}, Body: []string{"entry:", "\tMOV\tAX,0", "\tMOV\tSS,AX", "\tMOV\tSI,msg", "putloop:", "\tMOV\tAL,[SI]", "\tADD\tSI,1", "\tCMP\tAL,0", "\tJE\tfin", "\tMOV\tAH,0x0e", "\tINT\t0x10", "\tJMP\tputloop", "fin:", "\tHLT", "\tJMP\tfin", "msg:", "\tDB\t0x0a, 0x0a", "\tDB\t\"hello, world\"", "\tDB\t0x0a", "\tDB\t0", "\tRESB\t40"}})
 	out = append(out, &c19Prog{Name: "grid_coff", Coff: true, Header: []string{`[FORMAT "WCOFF"]`, `[INSTRSET "i486p"]`, "[BITS 32]", `[FILE "naskfunc.nas"]`},
 		Body: []string{"\tGLOBAL\t_io_hlt, _io_cli, _io_out8, _io_load_eflags_long_name", "[SECTION .text]", "_io_hlt:", "\tHLT", "\tRET", "_io_cli:", "\tCLI", "\tRET", "_io_out8:", "\tMOV\tEDX,[ESP+4]", "\tMOV\tAL,[ESP+8]", "\tOUT\tDX,AL", "\tRET", "_io_load_eflags_long_name:", "\tPUSHFD", "\tPOP\tEAX", "\tRET"}})
+	// sources without any statement
+	out = append(out, &c19Prog{Name: "only_blank_lines", Body: []string{"", "", ""}})
+	out = append(out, &c19Prog{Name: "only_one_newline", Body: []string{""}})
 	// sources that parse but fail late, after frontend.Exec has opened the output: a panic in code
 	// generation (INT with a vector >= 0x80) and a pass-2 failure (jump to a label containing '.')
 	lateBody := []string{"entry:", "\tMOV\tAX,1", "\tMOV\tBX,2", "\tDB\t1, 2, 3, 4, 5, 6, 7, 8", "\tDD\t0x12345678, 0x9abcdef0", "\tRESB\t64"}
@@ -147,7 +150,7 @@ func (c *c19Ctx) genScenario(seed uint64, progs []*c19Prog) *Scenario {
 	shapes := []string{"src-dst", "src-dst-lst", "none", "src", "four", "d-src-dst", "d-only", "v", "help", "badflag", "src-dst-dashlst", "src-dst-v", "d-src"}
 	s.Shape = shapes[r.weighted([]int{64, 11, 2, 3, 3, 5, 1, 1, 1, 2, 2, 2, 2})]
 	if s.Shape == "src-dst-lst" || s.Shape == "four" {
-		s.LstKind = pick(r, []string{"ok", "ok", "ok", "parent_missing", "same_as_dst", "existing", "same_as_src"})
+		s.LstKind = pick(r, []string{"ok", "ok", "ok", "parent_missing", "same_as_dst", "existing", "same_as_src", "is_dir", "dev_full", "symlink_to_dst", "symlink_to_src", "ro_existing"})
 	}
 	srcKinds := []string{"file", "missing", "dir", "mode000", "symlink_ok", "dangling", "loop", "spacename", "nonascii_name", "longname", "same_as_dst", "emptyarg", "fifo", "stdin", "relative", "dotslash", "barename", "dotdot_via_symlink"}
 	s.SrcKind = srcKinds[r.weighted([]int{70, 3, 2, 2, 2, 1, 1, 2, 2, 1, 2, 1, 3, 3, 2, 2, 5, 2})]
